@@ -27,6 +27,11 @@ FaultsHist ==
     { F("drop", 0, 0, 0), F("ans", 1, 0, 0), F("garb", 1, 0, 0), F("exc", 1, 0, 2),
       F("pclose", 2, 0, 0), F("eof", 2, 0, 0), F("err", 2, 0, 101), F("frag", 1, 2, "tail"), F("lone", 1, 0, 0) }
 
+\* alphabet for the instances with user cancellation
+FaultsCancel ==
+    { F("drop", 0, 0, 0), F("ans", 1, 0, 0), F("ans", 3, 0, 0), F("garb", 1, 0, 0), F("exc", 1, 0, 2),
+      F("frag", 1, 2, "tail"), F("lone", 1, 0, 0), F("pclose", 2, 0, 0) }
+
 FxAll == {"A", "B", "C", "D", "E", "F"}
 FxNone == {}
 FxNoF == {"A", "B", "C", "D", "E"}
